@@ -137,6 +137,8 @@ func cmdFunc(args []string) {
 			}
 			if o.Verdict != "unsat" {
 				fail++
+			}
+			if o.Verdict != "unsat" || o.Script != "" {
 				if *dump != "" {
 					os.MkdirAll(*dump, 0o755)
 					fn := *dump + "/" + sanitize(o.Name) + ".smt2"
